@@ -116,10 +116,12 @@ Inductive stmt (A:Type) :=
 | SInsert (t:N) (cells : list (option A))
 | SDeleteAll (t:N)
 | SUpdateAll (t c : N) (cell : A)
-| SVCreate | SVDrop | SVInsert (r:N) | SVDelete (r:N) | SVUpdate (a b : N).
+| SVCreate | SVDrop | SVInsert (r:N) | SVDelete (r:N) | SVUpdate (a b : N)
+| SBegin | SCommit.                              (* emit_begin / emit_commit: the script's own transaction framing *)
 Arguments SCreateTable {A}. Arguments SDropTable {A}. Arguments SAddColumn {A}. Arguments SCreateIndex {A}.
 Arguments SDropIndex {A}. Arguments SInsert {A}. Arguments SDeleteAll {A}. Arguments SUpdateAll {A}.
 Arguments SVCreate {A}. Arguments SVDrop {A}. Arguments SVInsert {A}. Arguments SVDelete {A}. Arguments SVUpdate {A}.
+Arguments SBegin {A}. Arguments SCommit {A}.
 
 Definition sqlstmt := stmt text.                 (* a statement of the offline script: literals are text *)
 Definition map_scol {A B} (f : A -> B) (c:scol A) : scol B :=
@@ -135,6 +137,7 @@ Definition map_stmt {A B} (f : A -> B) (s:stmt A) : stmt B :=
   | SDeleteAll t => SDeleteAll t
   | SUpdateAll t c x => SUpdateAll t c (f x)
   | SVCreate => SVCreate | SVDrop => SVDrop | SVInsert r => SVInsert r | SVDelete r => SVDelete r | SVUpdate a b => SVUpdate a b
+  | SBegin => SBegin | SCommit => SCommit
   end.
 Inductive ocell := Bound (v:value) | Lit (l:text).   (* online: a bound parameter, or literal text inside op.execute("...") *)
 
@@ -177,6 +180,22 @@ Definition rows_ok cols uniqs rows : bool := rows_ok_from cols uniqs [] rows.
 (* every uniqueness requirement on a table: its constraints and its unique indexes *)
 Definition uniqs_of (u:udb) (T:table) : list (list N) :=
   t_uniq T ++ map x_cols (filter (fun x => x_unique x && N.eqb (x_tab x) (t_name T)) (u_idx u)).
+
+(* ---- configuration of the migration context (env.py): transactional_ddl (None = the dialect's default, False on
+   SQLite) and transaction_per_migration *)
+Record cfg := mkCfg { g_tddl : option bool; g_tpm : bool }.
+Definition tddl_eff (c:cfg) : bool := match g_tddl c with Some b => b | None => false end.
+(* begin_transaction(): with transactional DDL a block is opened where _per_migration = transaction_per_migration:
+   around the whole run (env.py's begin_transaction()) or around every step; without it offline emits nothing and
+   online opens one transaction per step *)
+Definition frame_outer (c:cfg) : bool := tddl_eff c && negb (g_tpm c).
+Definition frame_step (c:cfg) : bool := tddl_eff c && g_tpm c.
+Definition commit_per_step (c:cfg) : bool := negb (frame_outer c).
+
+(* a database connection: the current contents and, while a transaction is open, the contents at its start *)
+Record ostate := mkO { o_cur : db; o_snap : option db }.
+Definition rolled_back (st:ostate) : db := match o_snap st with Some d => d | None => o_cur st end.
+Definition commit (st:ostate) : ostate := mkO (o_cur st) None.
 
 Section Exec.
   Context {A:Type}.
@@ -266,7 +285,10 @@ Section Exec.
   Definition is_vstmt (s:stmt A) : bool :=
     match s with SVCreate | SVDrop | SVInsert _ | SVDelete _ | SVUpdate _ _ => true | _ => false end.
 
+  Definition is_frame (s:stmt A) : bool := match s with SBegin | SCommit => true | _ => false end.
+  (* on the contents of the database BEGIN and COMMIT do nothing; what they do to the transaction is exec_tx below *)
   Definition exec_stmt (d:db) (s:stmt A) : option db :=
+    if is_frame s then Some d else
     if is_vstmt s then match exec_v (snd d) s with Some v => Some (fst d, v) | None => None end
     else match exec_u (fst d) s with Some u => Some (u, snd d) | None => None end.
 
@@ -283,6 +305,28 @@ Section Exec.
     end.
   Definition exec_list (d:db) (l : list (stmt A)) : option db :=
     let (d', ok) := exec_run d l in if ok then Some d' else None.
+
+  (* the same, on a connection in autocommit mode where the script's own BEGIN / COMMIT frame the transactions
+     (sqlite3 with isolation_level=None): BEGIN inside a transaction and COMMIT outside one are errors; when the
+     connection is closed after an error the open transaction is rolled back *)
+  Fixpoint exec_tx (st:ostate) (l : list (stmt A)) : ostate * bool :=
+    match l with
+    | [] => (st, true)
+    | s :: r =>
+        match s with
+        | SBegin => match o_snap st with Some _ => (st, false) | None => exec_tx (mkO (o_cur st) (Some (o_cur st))) r end
+        | SCommit => match o_snap st with Some _ => exec_tx (mkO (o_cur st) None) r | None => (st, false) end
+        | _ => match exec_stmt (o_cur st) s with Some d' => exec_tx (mkO d' (o_snap st)) r | None => (st, false) end
+        end
+    end.
+  (* BEGIN / COMMIT properly nested, starting with a transaction open or not; result: open at the end? *)
+  Fixpoint framed (open:bool) (l : list (stmt A)) : option bool :=
+    match l with
+    | [] => Some open
+    | SBegin :: r => if open then None else framed true r
+    | SCommit :: r => if open then framed false r else None
+    | _ :: r => framed open r
+    end.
 End Exec.
 
 (* how a run ends: the database afterwards, and whether it completed or was stopped by an error *)
@@ -350,9 +394,6 @@ Section Lit.
      transaction starts at the first DML statement after the last commit; DDL before it is already permanent, DDL
      after it is part of the transaction.  An exception rolls back to that point.
      o_snap = the database at the start of the open driver transaction, None when none is open. *)
-  Record ostate := mkO { o_cur : db; o_snap : option db }.
-  Definition rolled_back (st:ostate) : db := match o_snap st with Some d => d | None => o_cur st end.
-  Definition commit (st:ostate) : ostate := mkO (o_cur st) None.
   Definition on_exec (st:ostate) (s:stmt ocell) : option ostate :=
     match exec_stmt rd_on (o_cur st) s with
     | Some d' => Some (mkO d' (if is_dml s then match o_snap st with None => Some (o_cur st) | x => x end else o_snap st))
@@ -386,30 +427,31 @@ Section Lit.
     | s :: r => match on_bk1 st h s with Some (st', h') => on_bk st' h' r | None => (st, h, false) end
     end.
   Definition body_on (b : list op) : list (stmt ocell) := flat_map compile_on b.
-  Fixpoint on_steps (st:ostate) (h:list N) (steps : list step) : ostate * list N * bool :=
+  Definition step_commit (c:cfg) (st:ostate) : ostate := if commit_per_step c then commit st else st.
+  Fixpoint on_steps (c:cfg) (st:ostate) (h:list N) (steps : list step) : ostate * list N * bool :=
     match steps with
     | [] => (st, h, true)
     | stp :: r =>
         match on_exec_run st (body_on (s_body stp)) with
         | (st1, false) => (st1, h, false)
         | (st1, true) => match on_bk st1 h (s_bk stp) with
-                         | (st2, h2, true) => on_steps (commit st2) h2 r
+                         | (st2, h2, true) => on_steps c (step_commit c st2) h2 r
                          | (st2, h2, false) => (st2, h2, false)
                          end
         end
     end.
-  Definition run_online_tx (d:db) (steps : list step) : ostate * list N * bool :=
+  Definition run_online_tx (c:cfg) (d:db) (steps : list step) : ostate * list N * bool :=
     let heads := vers_rows d in
     (* _ensure_version_table: DDL outside any transaction *)
     let d1 := match heads with [] => ensure_version_table d | _ => d end in
-    on_steps (mkO d1 None) heads steps.
-  Definition online_outcome (d:db) (steps : list step) : outcome :=
-    match run_online_tx d steps with
+    on_steps c (mkO d1 None) heads steps.
+  Definition online_outcome (c:cfg) (d:db) (steps : list step) : outcome :=
+    match run_online_tx c d steps with
     | (st, _, true) => Done (o_cur st)
     | (st, _, false) => Aborted (rolled_back st)
     end.
-  Definition run_online (d:db) (steps : list step) : option db :=
-    match online_outcome d steps with Done d' => Some d' | Aborted _ => None end.
+  Definition run_online (c:cfg) (d:db) (steps : list step) : option db :=
+    match online_outcome c d steps with Done d' => Some d' | Aborted _ => None end.
 
   (* ---- offline: run_migrations with as_sql; the output buffer as a statement list *)
   Definition body_off (b : list op) : list sqlstmt := flat_map compile_off b.
@@ -432,12 +474,41 @@ Section Lit.
     | None => None
     end.
 
+  (* ---- the script with its transaction framing (begin_transaction in as_sql mode = emit_begin / emit_commit) *)
+  Definition fr_begin (b:bool) : list sqlstmt := if b then [SBegin] else [].
+  Definition fr_commit (b:bool) : list sqlstmt := if b then [SCommit] else [].
+  Fixpoint off_steps_f (c:cfg) (h : list N) (steps : list step) : option (list sqlstmt * list N) :=
+    match steps with
+    | [] => Some ([], h)
+    | st :: r =>
+        let pre := match h with [] => [SVCreate] | _ => [] end in
+        match hm_list h (s_bk st) with
+        | None => None
+        | Some h' => match off_steps_f c h' r with
+                     | Some (s, hf) => Some (fr_begin (frame_step c) ++ pre ++ body_off (s_body st) ++ map vstmt_sql (s_bk st)
+                                             ++ fr_commit (frame_step c) ++ s, hf)
+                     | None => None
+                     end
+        end
+    end.
+  (* env.py: with context.begin_transaction(): context.run_migrations();  the final DROP of the version table is
+     wrapped in begin_transaction(_per_migration=True) *)
+  Definition run_offline_f (c:cfg) (start : list N) (steps : list step) : option (list sqlstmt) :=
+    match off_steps_f c start steps with
+    | Some (s, hf) => Some (fr_begin (frame_outer c) ++ s
+                            ++ match hf with [] => fr_begin (frame_step c) ++ [SVDrop] ++ fr_commit (frame_step c) | _ => [] end
+                            ++ fr_commit (frame_outer c))
+    | None => None
+    end.
+  Definition replay_tx (d:db) (script : list sqlstmt) : ostate * bool := exec_tx parse_lit (mkO d None) script.
   (* generating the script can itself fail (an assertion in HeadMaintainer): then nothing is executed *)
-  Definition offline_outcome (d:db) (start : list N) (steps : list step) : outcome :=
-    match run_offline start steps with
-    | Some s => match replay_run d s with (d', true) => Done d' | (d', false) => Aborted d' end
+  Definition offline_outcome (c:cfg) (d:db) (start : list N) (steps : list step) : outcome :=
+    match run_offline_f c start steps with
+    | Some s => match replay_tx d s with (st, true) => Done (o_cur st) | (st, false) => Aborted (rolled_back st) end
     | None => Aborted d
     end.
+  Definition offline_effect_f (c:cfg) (d:db) (start : list N) (steps : list step) : option db :=
+    match offline_outcome c d start steps with Done d' => Some d' | Aborted _ => None end.
   Definition offline_effect (d:db) (start : list N) (steps : list step) : option db :=
     match run_offline start steps with Some s => replay d s | None => None end.
 
